@@ -23,8 +23,11 @@ def run(prop, tier, seed):
         rep.coverage_extra['units_parsed'] = len(prog.modules)
         rep.coverage_extra['functions'] = sum(1 for _ in prog.all_funcs())
         mod.check(prog, rep)
-        if tier == 'thorough' and hasattr(mod, 'thorough'):
-            mod.thorough(prog, rep)
+        if tier == 'thorough':
+            if hasattr(mod, 'thorough'):
+                mod.thorough(prog, rep)
+            from . import thorough as _th
+            _th.self_validate(prop, rep)
     except AnalysisIncomplete as e:
         print('ANALYSIS-INCOMPLETE property=%s %s' % (prop, e))
         rep.notes.append('incomplete: %s' % e)
